@@ -10,6 +10,7 @@ import (
 	"reflect"
 	"sort"
 	"testing"
+	"time"
 
 	"github.com/SAP/go-dblib/asetypes"
 	"github.com/SAP/go-dblib/tds"
@@ -473,6 +474,22 @@ func (p *prep) evalChannel(cut int, t tally) (f *vh.Failure) {
 		}
 		t["channel:empty-packet-inside-the-package"]++
 	}
+	if cut%7 == 4 {
+		// a header-only control packet (PROTACK) for the channel between the two halves: it is
+		// handed to the consumer as it is and does not come between the package and its format
+		ch.WritePacket(&tds.Packet{Header: tds.PacketHeader{MsgType: tds.TDS_BUF_PROTACK, Length: 8}})
+		if f := noError("after a control packet"); f != nil {
+			return f
+		}
+		got, err := drain(ctx, ch)
+		if err != nil || len(got) != 1 {
+			return vh.Failf(class(p.kind, "channel-delivery"), "%s, channel: a control packet after the prefix packet delivered %d packages (%v), err %v", p.describe(cut), len(got), clip(got), err)
+		}
+		if _, ok := got[0].(*tds.HeaderOnlyPackage); !ok {
+			return vh.Failf(class(p.kind, "channel-delivery"), "%s, channel: a control packet after the prefix packet delivered %v", p.describe(cut), clip(got))
+		}
+		t["channel:control-packet-inside-the-package"]++
+	}
 	if cut%3 == 2 {
 		// the prefix packet was the answer of a fast server: the client's call that sent the
 		// request returns only now, between the truncated attempt and the complete bytes
@@ -647,6 +664,11 @@ func (p *prep) runCut(cut int, t tally) (f *vh.Failure) {
 			return f
 		}
 		t["mode:channel"]++
+		if cut%4 == 2 {
+			if f := p.evalReader(cut, t); f != nil {
+				return f
+			}
+		}
 		if cut%7 == 5 {
 			if f := p.evalPendingError(cut, t); f != nil {
 				return f
@@ -956,5 +978,76 @@ func (p *prep) evalPendingError(cut int, t tally) (f *vh.Failure) {
 		return vh.Failf(class(p.kind, "channel-error"), "%s, channel with an unfetched error of an earlier response: %d errors were reported, expected the one about the refused packet size", p.describe(cut), nerr)
 	}
 	t["channel:unfetched-error-of-an-earlier-response"]++
+	return nil
+}
+
+// evalReader: the same two halves, but through the connection's reader goroutine (bytes on a
+// transport), with an empty packet (header only, no EOM) between them.
+func (p *prep) evalReader(cut int, t tally) (f *vh.Failure) {
+	defer func() {
+		if r := recover(); r != nil {
+			vh.CheckHarnessPanic(r)
+			f = vh.Failf(class(p.kind, "panic"), "%s, reader: panic: %v", p.describe(cut), r)
+		}
+	}()
+	ctx, cancel := context.WithCancel(context.Background())
+	pipe := peer.NewPipe()
+	conn, done, err := tds.VerifNewConn(ctx, pipe, &tds.Info{ChannelPackageQueueSize: 1000, PacketReadTimeout: 2}, true)
+	if err != nil {
+		vh.HarnessBug("VerifNewConn: %v", err)
+	}
+	defer func() {
+		cancel()
+		pipe.Close()
+		select {
+		case <-done:
+		case <-time.After(3 * time.Second):
+		}
+	}()
+	ch, err := conn.NewChannel()
+	if err != nil {
+		vh.HarnessBug("NewChannel: %v", err)
+	}
+	pipe.Feed(rc.Packet{Type: rc.BufResponse, Body: p.stream[:p.start+cut]}.Bytes())
+	pipe.Feed(rc.Packet{Type: rc.BufResponse}.Bytes())
+	if cut%8 == 2 {
+		pipe.Feed(rc.Packet{Type: rc.BufResponse}.Bytes())
+	}
+	pipe.Feed(rc.Packet{Type: rc.BufResponse, Status: rc.StatEOM, Body: p.stream[p.start+cut:]}.Bytes())
+	if !pipe.WaitDrained(10 * time.Second) {
+		return vh.Failf(class(p.kind, "reader-stuck"), "%s, reader: the reader did not come back for more input within 10 s", p.describe(cut))
+	}
+	got, err := drain(ctx, ch)
+	if err != nil {
+		return vh.Failf(class(p.kind, "channel-error"), "%s, reader (prefix packet, empty packet, remainder): %v", p.describe(cut), err)
+	}
+	if e := ch.VerifChanErr(); e != nil {
+		return vh.Failf(class(p.kind, "channel-error"), "%s, reader (prefix packet, empty packet, remainder): the channel queued the error: %v", p.describe(cut), e)
+	}
+	var want []rc.P
+	for _, x := range p.pkgs {
+		if delivered(x) {
+			want = append(want, x)
+		}
+	}
+	n := len(want)
+	if !(n > 0 && want[n-1].Done != nil && want[n-1].Done.Status == rc.DoneFinal) {
+		n++ // the final DONE the channel supplies
+	}
+	if len(got) != n {
+		return vh.Failf(class(p.kind, "channel-delivery"), "%s, reader (prefix packet, empty packet, remainder): %d packages were delivered (%v), expected %d", p.describe(cut), len(got), clip(got), n)
+	}
+	var lf *rc.Fmt
+	for _, x := range p.pkgs {
+		if x.Fmt != nil {
+			lf = x.Fmt
+		}
+	}
+	for i, w := range want {
+		if err := pkggen.LibEqual(w, lf, got[i]); err != nil {
+			return vh.Failf(class(pkggen.KindOf(w), "channel-delivery"), "%s, reader (prefix packet, empty packet, remainder): package %d (%s) was delivered with wrong fields: %v", p.describe(cut), i, pkggen.KindOf(w), err)
+		}
+	}
+	t["mode:reader-with-empty-packet-between"]++
 	return nil
 }
